@@ -609,3 +609,380 @@ PY5_PRELUDE = (
     '/-- `xs[:len(xs) - k]` for `k ≤ len(xs)` -/\n'
     'def dropLastN {β : Type} (xs : List β) (k : Nat) : List β := xs.take (xs.length - k)\n'
     'end Py5')
+
+
+# ======================================================================================================================
+# BEGIN block J (append-only): idioms for the table-filling passes of algorithms/evaluation.py (`eval_bottom_up`,
+# `eval_top_down`, serial paths).  Everything is behind NEW keyword tables of the subclass `LPArr`; `LP` above is untouched.
+#     A[k] = e               A := (set' A k e)                       for the row tables in `rows` = {python name: (get', set')}
+#     A[k] |= e              A := (set' A k ((get' A k) || e))       (a table of booleans: `|=` is the element-wise OR of one row)
+#     A[k]                   (get' A k)                              read of a row of a table in `rows`
+#     c[k]                   (c' k)                                  read of a row of a CONSTANT table in `consts` = {python name: lean name}
+#     o.id                   (nid o)                                 through `attrs` (already an idiom of LP)
+#     a & b                  (a && b)
+#     a == b                 (a == b)                                for two NAMES bound to terms (an index against a selector's answer)
+#     np.stack(<list>, axis=1)   the list itself                     (one row of the batch: column i = entry i)
+#     reversed(xs)           (xs).reverse
+#     enumerate(xs)          (xs).zipIdx                             as the iterable of a `for` with a 2-tuple target `i, c`: c = x.1, i = x.2
+#     f(a, <fixed>, **kw)    (f' a)                                  for the function PARAMETERS in `calls` = {python name: (lean, [spec])},
+#                                                                    spec entry None = translated argument, a string = the argument's text
+#                                                                    (spaces removed, `{0}`, `{1}` … = the texts of the translated arguments)
+#     with <lock>: body      body                                    for the locks in `locks` (serial reading: the lock orders nothing)
+#     if <hooks> is not None: <calls on hooks>    nothing            for the module-level name in `hooks` (verification hooks, inert by default)
+#     for … (any `for`)      `for_fold` of LP
+# ======================================================================================================================
+class LPArr(LP):
+    def __init__(self, T, what, state, rows=None, consts=None, calls=None, locks=None, hooks=None, **kw):
+        kw.setdefault('methods', {})
+        kw.setdefault('ctors', {})
+        kw.setdefault('tables', {})
+        LP.__init__(self, T, what, state, **kw)
+        self.rows, self.consts, self.calls = rows or {}, consts or {}, calls or {}
+        self.locks, self.hooks = set(locks or ()), hooks
+
+    def key(self, e, env):
+        return self.term(self.ex(e, env))
+
+    def bind(self, target, env):
+        if isinstance(target, ast.Tuple) and len(target.elts) == 2 and all(isinstance(t, ast.Name) for t in target.elts):
+            # `for i, c in enumerate(xs)`: only legal when the iterable was rendered by the `enumerate` idiom (checked by the caller)
+            i, c = target.elts
+            for t in (i, c):
+                if t.id in env or t.id in dict(self.state):
+                    self.fail(f'bound variable {t.id} shadows a variable of the loop', target)
+            if i.id == c.id:
+                self.fail('the two bound variables coincide', target)
+            self.depth += 1
+            env2 = dict(env)
+            env2[c.id] = ('t', f'x{self.depth}.1')
+            env2[i.id] = ('t', f'x{self.depth}.2')
+            return f'x{self.depth}', env2
+        return LP.bind(self, target, env)
+
+    def for_fold(self, s, env):
+        tup = isinstance(s.target, ast.Tuple)
+        enum = (isinstance(s.iter, ast.Call) and isinstance(s.iter.func, ast.Name) and s.iter.func.id == 'enumerate'
+                and 'enumerate' not in env and len(s.iter.args) == 1 and not s.iter.keywords)
+        if tup != enum:
+            self.fail('a tuple target without `enumerate(…)` (or the converse)', s)
+        return LP.for_fold(self, s, env)
+
+    def ex(self, e, env):
+        if isinstance(e, ast.Subscript) and isinstance(e.value, ast.Name) and not isinstance(e.slice, ast.Slice):
+            a = e.value.id
+            if a in self.rows and a in env:
+                return ('t', f'({self.rows[a][0]} {self.term(env[a])} {self.key(e.slice, env)})')
+            if a in self.consts and a not in env:
+                return ('t', f'({self.consts[a]} {self.key(e.slice, env)})')
+        if isinstance(e, ast.BinOp) and isinstance(e.op, ast.BitAnd):
+            return ('t', f'({self.term(self.ex(e.left, env))} && {self.term(self.ex(e.right, env))})')
+        if (isinstance(e, ast.Compare) and len(e.ops) == 1 and isinstance(e.ops[0], ast.Eq) and isinstance(e.left, ast.Name)
+                and isinstance(e.comparators[0], ast.Name) and e.left.id in env and e.comparators[0].id in env):
+            return ('t', f'({self.term(env[e.left.id])} == {self.term(env[e.comparators[0].id])})')
+        if isinstance(e, ast.Call):
+            f = e.func
+            dn = self.T.dotted_name(f)
+            if dn == 'np.stack' and 'np' not in env:
+                ax = [k.value for k in e.keywords if k.arg == 'axis']
+                if len(e.args) != 1 or len(ax) != 1 or len(e.keywords) != 1 or int(self.T.const_value(ax[0])) != 1:
+                    self.fail('np.stack is not called as np.stack(<list>, axis=1)', e)
+                return self.ex(e.args[0], env)
+            if isinstance(f, ast.Name) and f.id == 'reversed' and 'reversed' not in env and len(e.args) == 1 and not e.keywords:
+                return ('t', f'({self.term(self.ex(e.args[0], env))}).reverse')
+            if isinstance(f, ast.Name) and f.id == 'enumerate' and 'enumerate' not in env and len(e.args) == 1 and not e.keywords:
+                return ('t', f'({self.term(self.ex(e.args[0], env))}).zipIdx')
+            if isinstance(f, ast.Name) and f.id in self.calls and f.id not in env:
+                return self.call_star(e, env)
+        return LP.ex(self, e, env)
+
+    def call_star(self, e, env):
+        """`f(a, b, **kwargs)` with f in `calls`: the `**name` argument is matched against the spec entry `**name`"""
+        f = e.func
+        lean, spec = self.calls[f.id]
+        given = [ast.unparse(a).replace(' ', '') for a in e.args] + ['**' + ast.unparse(k.value).replace(' ', '') if k.arg is None
+                                                                       else f'{k.arg}=' + ast.unparse(k.value).replace(' ', '') for k in e.keywords]
+        if len(given) != len(spec):
+            self.fail(f'{f.id} is not called with {len(spec)} arguments', e)
+        nodes = list(e.args) + [k.value for k in e.keywords]
+        args, srcs = [], []
+        for g, sp, nd in zip(given, spec, nodes):
+            if sp is None:
+                if g.startswith('**') or '=' in g.split('(')[0]:
+                    self.fail(f'{f.id}: a translated argument is not positional', e)
+                args.append(self.term(self.ex(nd, env)))
+                srcs.append(g)
+        for g, sp in zip(given, spec):
+            if sp is not None and g != sp.format(*srcs):
+                self.fail(f'{f.id}: argument `{g}` is not `{sp.format(*srcs)}`', e)
+        return ('t', '(' + ' '.join([lean] + args) + ')')
+
+    def stmt(self, s, env):
+        env = dict(env)
+        # verification hooks: `if <hooks> is not None: <hooks>.f(…)` — inert unless the hooks module is loaded
+        if (self.hooks and isinstance(s, ast.If) and ast.unparse(s.test).replace(' ', '') == f'{self.hooks}isnotNone' and not s.orelse
+                and self.hooks not in env
+                and all(isinstance(b, ast.Expr) and isinstance(b.value, ast.Call) and (self.T.dotted_name(b.value.func) or '').startswith(self.hooks + '.')
+                        for b in s.body)):
+            return env
+        if isinstance(s, ast.With) and len(s.items) == 1 and s.items[0].optional_vars is None \
+                and isinstance(s.items[0].context_expr, ast.Name) and s.items[0].context_expr.id in self.locks:
+            return self.block(s.body, env)
+        if isinstance(s, ast.For):
+            return self.for_fold(s, env)
+        if isinstance(s, ast.Assign) and len(s.targets) == 1 and isinstance(s.targets[0], ast.Subscript) \
+                and isinstance(s.targets[0].value, ast.Name) and s.targets[0].value.id in self.rows:
+            t = s.targets[0]
+            a = t.value.id
+            if a not in env or isinstance(t.slice, ast.Slice):
+                self.fail('store into a row table', s)
+            self.mutated(a, s)
+            v = self.val(s.value, env)
+            env[a] = ('t', f'({self.rows[a][1]} {self.term(env[a])} {self.key(t.slice, env)} {v})')
+            return env
+        if isinstance(s, ast.AugAssign) and isinstance(s.target, ast.Subscript) and isinstance(s.target.value, ast.Name) \
+                and s.target.value.id in self.rows:
+            t = s.target
+            a = t.value.id
+            if a not in env or isinstance(t.slice, ast.Slice) or not isinstance(s.op, ast.BitOr):
+                self.fail('update of a row table (only `|=`)', s)
+            self.mutated(a, s)
+            k = self.key(t.slice, env)
+            get, set_ = self.rows[a]
+            v = self.val(s.value, env)
+            env[a] = ('t', f'({set_} {self.term(env[a])} {k} (({get} {self.term(env[a])} {k}) || {v}))')
+            return env
+        if isinstance(s, ast.Assign) and len(s.targets) == 1 and isinstance(s.targets[0], ast.Name):
+            v = s.value
+            if isinstance(v, ast.Call) and isinstance(v.func, ast.Name) and v.func.id in self.calls and v.func.id not in env:
+                env[s.targets[0].id] = self.call_star(v, env)
+                return env
+        return LP.stmt(self, s, env)
+
+    def val(self, e, env):
+        if isinstance(e, ast.Call) and isinstance(e.func, ast.Name) and e.func.id in self.calls and e.func.id not in env:
+            return self.term(self.call_star(e, env))
+        return self.term(self.ex(e, env))
+# END block J
+
+
+# ======================================================================================================================
+# BLOCK K (append-only; nothing above is changed): skeletons of `for` loops whose state is ONE array (or dictionary) that
+# is written at a slot computed from the loop variable — `BinaryCLT.message_passing`, `mpe`, `sample` (cltree.py) and the passes of
+# `prune` / `marginalize` (algorithms/structure.py).  What is rendered: the traversal (the iterated expression), the slot that is
+# written, the slots of the state that are read, the statements around the loop that touch the state, what is returned.  The
+# numerical content of an iteration is a PARAMETER (`body`) that receives exactly the entries of the state the source reads.
+# Idioms (each one behind a table given by the caller; anything else raises Untranslatable):
+#     for v in E:            (E').foldl (fun st v => …) st      no else / break / continue / return / nested loop on the state
+#     reversed(E)            (E').reverse
+#     E[1:]                  (Py.drop E' (1 : Int))
+#     <iter_syms>            the name given in `iter_syms` (text of the expression, e.g. `self.bfs` -> bfs)
+#   slots (`slot_term`):
+#     v                      j            the loop variable
+#     <slot_syms>            e.g. `self.root` -> root
+#     T[v] for T in slot_tabs   (Py4.getI tree j 0)
+#     v.a for a in slot_attrs   (nid node)
+#   accesses to the state array A (position axis `axis`: 0 = first index, -1 = last index; the other indices are row masks / `:`):
+#     A[.., s, ..] (load)                 a read of slot s:      (get st s) handed to the body
+#     A[.., s, ..] op= e                  read + write of slot s:  st := set st s (body … (get st s) …)
+#     A[.., s, ..] = e   under a mask     masked write of slot s:  st := Py5.storeOpt set st s (body …)   (body : … → Option E; `none` = row not selected)
+#     A[.., s, ..] = e   without mask     st := set st s (body …)
+#     A anywhere else inside the loop     Untranslatable
+# ======================================================================================================================
+PY5K_PRELUDE = (
+    '/-! Idioms of the loop skeletons (`S5clt…Loop`, `S5…PassLoop`; tools/listprog.py, block K). Core Lean only. -/\n'
+    'namespace Py5\n'
+    '/-- a store under a row mask, `A[mask, s] = v`, seen from ONE row: `some v` = the row is selected and receives `v`, `none` = the row is '
+    'not selected and the array is unchanged -/\n'
+    'def storeOpt {M K E : Type} (set : M → K → E → M) (st : M) (k : K) : Option E → M\n'
+    '  | some v => set st k v\n'
+    '  | none => st\n'
+    'end Py5')
+
+
+class SK:
+    def __init__(self, T, what, axis=0, iter_syms=None, slot_syms=None, slot_tabs=None, slot_attrs=None, var='j', get='getRow', set_='setRow'):
+        self.T, self.U, self.what, self.axis = T, T.Untranslatable, what, axis
+        self.iter_syms, self.slot_syms = iter_syms or {}, slot_syms or {}
+        self.slot_tabs, self.slot_attrs = slot_tabs or {}, slot_attrs or {}
+        self.var, self.get, self.set = var, get, set_
+
+    def fail(self, msg, node=None):
+        raise self.U(f'{self.what}: {msg}' + (f' [{ast.unparse(node)[:80]}]' if node is not None else ''))
+
+    @staticmethod
+    def txt(e):
+        return ast.unparse(e).replace(' ', '')
+
+    def iter_term(self, e):
+        t = self.txt(e)
+        if t in self.iter_syms:
+            return self.iter_syms[t]
+        if (isinstance(e, ast.Call) and isinstance(e.func, ast.Name) and e.func.id == 'reversed' and len(e.args) == 1 and not e.keywords):
+            return f'({self.iter_term(e.args[0])}).reverse'
+        if (isinstance(e, ast.Subscript) and isinstance(e.slice, ast.Slice) and e.slice.upper is None and e.slice.step is None
+                and isinstance(e.slice.lower, ast.Constant) and e.slice.lower.value == 1 and not isinstance(e.slice.lower.value, bool)):
+            return f'(Py.drop {self.iter_term(e.value)} (1 : Int))'
+        self.fail('the iterated expression is not built from the known lists with `reversed(·)` / `·[1:]`', e)
+
+    def slot_term(self, e, loopvar):
+        if isinstance(e, ast.Name) and e.id == loopvar:
+            return self.var
+        t = self.txt(e)
+        if t in self.slot_syms:
+            return self.slot_syms[t]
+        if (isinstance(e, ast.Subscript) and self.txt(e.value) in self.slot_tabs and isinstance(e.slice, ast.Name) and e.slice.id == loopvar):
+            return f'(Py4.getI {self.slot_tabs[self.txt(e.value)]} {self.var} 0)'
+        if isinstance(e, ast.Attribute) and e.attr in self.slot_attrs and isinstance(e.value, ast.Name) and e.value.id == loopvar:
+            return f'({self.slot_attrs[e.attr]} {self.var})'
+        self.fail('slot of the state that is not computed from the loop variable by a known idiom', e)
+
+    def occurrences(self, stmts, A, loopvar):
+        '''every occurrence of the state array A in `stmts`: (mode, slot term or None, masked) with mode in load / store / aug / whole'''
+        out = []
+
+        def full(s):
+            return isinstance(s, ast.Slice) and s.lower is None and s.upper is None and s.step is None
+
+        def visit(n, aug=False):
+            if isinstance(n, ast.Subscript) and isinstance(n.value, ast.Name) and n.value.id == A:
+                idx = list(n.slice.elts) if isinstance(n.slice, ast.Tuple) else [n.slice]
+                if self.axis == -1 and len(idx) < 2:
+                    self.fail('the state is indexed without its position axis', n)
+                pos = idx[self.axis]
+                if isinstance(pos, ast.Slice):
+                    self.fail('the position axis of the state is sliced', n)
+                others = [i for k, i in enumerate(idx) if k != (self.axis % len(idx))]
+                masked = any(not full(i) for i in others)
+                mode = ('aug' if aug else 'store') if isinstance(n.ctx, (ast.Store, ast.Del)) else 'load'
+                if isinstance(n.ctx, ast.Del):
+                    self.fail('del on the state', n)
+                out.append((mode, self.slot_term(pos, loopvar), masked))
+                for i in idx:
+                    visit(i)
+                return
+            if isinstance(n, ast.Name) and n.id == A:
+                out.append(('whole', None, False))
+                return
+            if isinstance(n, ast.AugAssign):
+                visit(n.target, aug=True)
+                visit(n.value)
+                return
+            for c in ast.iter_child_nodes(n):
+                visit(c)
+        for s in stmts:
+            visit(s)
+        return out
+
+    def state_of(self, loop):
+        '''the ONE name that is stored into by subscript inside the loop'''
+        names = set()
+        for n in ast.walk(loop):
+            if isinstance(n, ast.Subscript) and isinstance(n.ctx, ast.Store) and isinstance(n.value, ast.Name):
+                names.add(n.value.id)
+            if isinstance(n, ast.Attribute) and isinstance(n.ctx, ast.Store):
+                b = n.value
+                if isinstance(b, ast.Subscript) and isinstance(b.value, ast.Name):
+                    names.add(b.value.id)
+        if len(names) != 1:
+            self.fail(f'the loop stores by subscript into {sorted(names)}, expected exactly one array')
+        return names.pop()
+
+    def step(self, occ, st, body_args, where):
+        '''the Lean term of the state after a group of statements with the occurrences `occ` of the state (exactly one slot written)'''
+        if any(m == 'whole' for m, _, _ in occ):
+            self.fail(f'{where}: the state is used as a whole (not through one of its slots)')
+        writes = [(m, s, k) for m, s, k in occ if m in ('store', 'aug')]
+        if not writes:
+            self.fail(f'{where}: nothing is written to the state')
+        W = {s for _, s, _ in writes}
+        if len(W) != 1:
+            self.fail(f'{where}: more than one slot of the state is written: {sorted(W)}')
+        W = W.pop()
+        modes = {m for m, _, _ in writes}
+        if len(modes) != 1:
+            self.fail(f'{where}: plain and augmented stores into the state are mixed')
+        reads = {s for m, s, _ in occ if m == 'load'}
+        if modes == {'aug'}:
+            reads.add(W)
+        order = ([W] if W in reads else []) + sorted(reads - {W})
+        args = ' '.join(body_args + [f'({self.get} {st} {r})' for r in order])
+        if modes == {'aug'}:
+            return f'{self.set} {st} {W} ({args})', len(order)
+        masked = {k for _, _, k in writes}
+        if masked == {True}:
+            return f'Py5.storeOpt {self.set} {st} {W} ({args})', len(order)
+        if masked == {False}:
+            return f'{self.set} {st} {W} ({args})', len(order)
+        self.fail(f'{where}: masked and unmasked stores into the state are mixed')
+
+    def fold(self, loop, A, st, body, extra, init):
+        '''`for v in E: <body>` -> ((E').foldl (fun st j => <step>) init, number of state entries handed to the body)'''
+        if loop.orelse or not isinstance(loop.target, ast.Name):
+            self.fail('for … else / a loop target that is not a name', loop)
+        v = loop.target.id
+        for n in ast.walk(loop):
+            if isinstance(n, (ast.Break, ast.Return, ast.While, ast.Yield, ast.YieldFrom)) or (isinstance(n, ast.For) and n is not loop and
+                    any(isinstance(m, ast.Name) and m.id == A for m in ast.walk(n))):
+                self.fail('control flow inside the loop', n)
+            if isinstance(n, ast.Name) and n.id == v and isinstance(n.ctx, ast.Store) and n is not loop.target:
+                self.fail('the loop variable is assigned inside the loop', n)
+        if any(isinstance(m, ast.Name) and m.id == A for m in ast.walk(loop.iter)):
+            self.fail('the iterated expression mentions the state', loop.iter)
+        term, n = self.step(self.occurrences(loop.body, A, v), st, [body] + extra + [self.var], 'loop body')
+        return f'({self.iter_term(loop.iter)}).foldl (fun {st} {self.var} => {term}) {init}', n
+
+
+# ---- BLOCK K, continued (append-only): passes over a node list whose state is a DICTIONARY keyed by `node.id` (`prune`, `marginalize`) ----
+#     A[v.id] = e, A[v.id].attr = e     writes of (or mutations of the object at) the slot of the visited node: the ONLY writes allowed;
+#                                        rendered  st := apply st (nid node) (body (get st) node)   — the body may READ the dictionary at any
+#                                        key (children, grandchildren: `map(lambda n: A[n.id], …)`) but an iteration changes one slot
+#     `continue`, `raise`, nested `for` loops that do not store into A are part of the body
+def _sk_fold_keyed(self, loop, A, st, body, init, canon):
+    '''-> (Lean term of the fold, sorted canonical texts of the stores into the state)'''
+    if loop.orelse or not isinstance(loop.target, ast.Name):
+        self.fail('for … else / a loop target that is not a name', loop)
+    v = loop.target.id
+    writes = []
+    for n in ast.walk(loop):
+        if isinstance(n, (ast.Break, ast.Return, ast.While, ast.Yield, ast.YieldFrom)):
+            self.fail('control flow inside the loop', n)
+        if isinstance(n, ast.Name) and n.id == v and isinstance(n.ctx, ast.Store) and n is not loop.target:
+            self.fail('the loop variable is assigned inside the loop', n)
+    if any(isinstance(m, ast.Name) and m.id == A for m in ast.walk(loop.iter)):
+        self.fail('the iterated expression mentions the state', loop.iter)
+    sub_of_A = set()
+    for n in ast.walk(loop):
+        if isinstance(n, ast.Subscript) and isinstance(n.value, ast.Name) and n.value.id == A:
+            sub_of_A.add(id(n.value))
+            if isinstance(n.slice, (ast.Slice, ast.Tuple)):
+                self.fail('the dictionary is not read by a single key', n)
+            if isinstance(n.ctx, ast.Store):
+                if self.slot_term(n.slice, v) != f'({self.slot_attrs.get("id", "nid")} {self.var})':
+                    self.fail('a store into the dictionary at another key than the visited node', n)
+            elif isinstance(n.ctx, ast.Del):
+                self.fail('del on the dictionary', n)
+        if isinstance(n, ast.Attribute) and isinstance(n.ctx, ast.Store):
+            b = n.value
+            if isinstance(b, ast.Subscript) and isinstance(b.value, ast.Name) and b.value.id == A:
+                if self.slot_term(b.slice, v) != f'({self.slot_attrs.get("id", "nid")} {self.var})':
+                    self.fail('an object of the dictionary is changed at another key than the visited node', n)
+            elif any(isinstance(m, ast.Name) and m.id == A for m in ast.walk(b)):
+                self.fail('an object reached through the dictionary is changed', n)
+    for s in ast.walk(loop):
+        if isinstance(s, (ast.Assign, ast.AugAssign, ast.AnnAssign)):
+            for t in (s.targets if isinstance(s, ast.Assign) else [s.target]):
+                base = t.value if isinstance(t, ast.Attribute) else t
+                if isinstance(base, ast.Subscript) and isinstance(base.value, ast.Name) and base.value.id == A:
+                    if isinstance(s, ast.AugAssign):
+                        self.fail('augmented store into the dictionary', s)
+                    writes.append(canon(t) + '=' + canon(s.value))
+    for n in ast.walk(loop):
+        if isinstance(n, ast.Name) and n.id == A and id(n) not in sub_of_A:
+            self.fail('the dictionary is used as a whole inside the loop', n)
+    if not writes:
+        self.fail('the loop never stores into the dictionary')
+    term = f'({self.iter_term(loop.iter)}).foldl (fun {st} {self.var} => apply {st} ({self.slot_attrs.get("id", "nid")} {self.var}) ({body} ({self.get} {st}) {self.var})) {init}'
+    return term, sorted(writes)
+
+
+SK.fold_keyed = _sk_fold_keyed
